@@ -33,6 +33,10 @@ own height, so the recorded size must not matter; (b) TWO Images over one pixel 
 overlapping row slice, with its own WCS object), calls going to either: the spec never writes the buffer (NonInterference,
 BufferUntouched, PeerSkyUnchanged, PeerOK), and after every call BOTH real objects are compared with their specified state
 (key ...:bystander when the object that was not called has moved on the sky); a written buffer alone is drift.
+(c) the WCS object of the Image / ImageDescription is edited IN PLACE between calls (spec action EditWcs: CDi_2 negated,
+CDELT1 negated, matrix rows exchanged; base - the reference picture for "moves no pixel" - is reset to the edited object,
+EditOK: the parity afterwards is that of the edited matrix): get_parity_sign must follow the object's current contents
+(key ...get_parity_sign:convention) and every later flip / ensure is judged against the edited picture.
 """
 import itertools
 import math
@@ -46,6 +50,8 @@ from lib import repo, tla
 SCALES = [1e-3, 1e-2, 1e-5, 1e-7, 1e-9]
 FRAMES = [((10.0, 20.0), None, None), ((359.9995, -45.0), None, None), ((120.0, 89.99), None, None),
           ((40.0, 30.0), 150.0, None), ((200.0, 90.0), 180.0, None), ((75.0, -90.0), 0.0, None), ((300.0, 60.0), 179.0, 45.0)]
+# in-place edits of an object's WCS between calls (spec: Edited)
+EDITS = {"cdsign": "CD1_2, CD2_2 negated", "cdelt1": "CDELT1 negated", "rowswap": "the two matrix rows exchanged"}
 # PIL-backed objects: how the bitmap got into the Image, and what the client called before the parity operation
 BACKINGS = ["from_pil-RGB", "from_pil-RGBA", "loader-L", "loader-png"]
 TOUCHES = ["nothing", "asarray", "dtype", "aspil", "shape"]
@@ -60,6 +66,7 @@ CONSTANTS
  RefY <- MCRefY
  RecY <- MCRecY
  Peers <- MCPeers
+ Edits <- MCEdits
  MaxHist = %d
 INVARIANT WellFormed
 INVARIANT SkyUnchanged
@@ -75,6 +82,7 @@ PROPERTY EnsureOK
 PROPERTY TouchInvisible
 PROPERTY NonInterference
 PROPERTY PeerOK
+PROPERTY EditOK
 CHECK_DEADLOCK FALSE
 """
 
@@ -127,10 +135,10 @@ def history_headers(hdrs):
     return pick + [x for x in hdrs[-2:] if x not in pick]
 
 
-def mc_module(kinds, widths, heights, hdrs, refx, refy, maxhist=0, recy=((0, 0),), peers=("none",)):
+def mc_module(kinds, widths, heights, hdrs, refx, refy, maxhist=0, recy=((0, 0),), peers=("none",), edits=()):
     defs = [("MCKinds", tla.lit(set(kinds))), ("MCWidths", tla.lit(set(widths))), ("MCHeights", tla.lit(set(heights))),
             ("MCHeaders", tla.lit(set(hdrs))), ("MCRefX", tla.lit(set(refx))), ("MCRefY", tla.lit(set(refy))),
-            ("MCRecY", tla.lit(set(recy))), ("MCPeers", tla.lit(set(peers)))]
+            ("MCRecY", tla.lit(set(recy))), ("MCPeers", tla.lit(set(peers))), ("MCEdits", tla.lit(set(edits)))]
     if maxhist == 0:
         defs.append('Emit == (cur = Start(orig)) => PrintT(<<"R", ToJson(Report)>>)')
     else:       # one record per complete call history
@@ -351,8 +359,33 @@ def replay_case(args):
         done = []
         prev_sign = ob0["sign"]
         prev_ob = ob0
+        base_rows, base_cd = list(rec["start"]["rows"]), rec["start"]["cd"]      # the reference picture: the start, or the last WCS edit
         for i, (act, step) in enumerate(zip(rec["hist"], rec["trace"])):
             snap = step["snap"]
+            if act in EDITS:
+                # the client edits the WCS object of the Image / ImageDescription IN PLACE (as toasty's own --fits-wcs code does):
+                # from here on the object is a different picture of the sky, and its parity is that of its current matrix
+                wobj = obj.wcs
+                if wobj.wcs.has_cd():
+                    wobj.wcs.cd = np.array(snap["cd"], dtype=float).reshape(2, 2) * SCALE
+                else:
+                    wobj.wcs.cdelt = [SCALE, SCALE]
+                    wobj.wcs.pc = np.array(snap["cd"], dtype=float).reshape(2, 2)
+                wobj.wcs.set()
+                done.append("wcs edited in place (%s)" % EDITS[act])
+                hist_txt = " [calls so far: %s]" % " -> ".join(done)
+                ob = observe(obj)
+                if not world_ok(ob, step["world"]):
+                    res.append(("M", "edit", "the in-place WCS edit made by the harness does not give the spec's linear stage: %r" % (case,), case))
+                    break
+                if ob["sign"] != snap["sign"]:
+                    bad("V", "get_parity_sign", "convention",
+                        "%s.get_parity_sign() = %+d for a CD determinant of %g after the object's WCS was edited in place (it was %+d before the edit)%s"
+                        % (cls, ob["sign"], snap["det"] * SCALE * SCALE, prev_sign, hist_txt))
+                    break
+                ob0, prev_ob, prev_sign = ob, ob, ob["sign"]
+                base_rows, base_cd = list(snap["rows"]), snap["cd"]
+                continue
             if act == "flip":
                 op = "flip_parity"
                 obj.flip_parity()
@@ -396,12 +429,14 @@ def replay_case(args):
                         "the stored rows are %s (original row numbers), specified %s%s"
                         % (stored_rows(ob["ident"]) if ob["ident"].shape == (h, w) else ob["ident"].shape, snap["rows"], hist_txt))
                 else:
-                    sep = sky_follows_rows(ob, ob0, snap["rows"])
+                    pos0 = {r: k for k, r in enumerate(base_rows)}
+                    src = np.array([pos0[r] * w + x for r in snap["rows"] for x in range(w)])
+                    sep = float(_sep_deg(ob["sky"], ob0["sky"][src]).max())
                     if not sep <= TOL_DEG:
                         bad("V", op, "sky", "a pixel moved on the sky by %.3g deg (stored rows %s, sign %+d)%s" % (sep, snap["rows"], ob["sign"], hist_txt))
                 pil_view_check(op + hist_txt, i + 1, ob, snap)
             else:
-                flipped = snap["cd"] != rec["start"]["cd"]
+                flipped = snap["cd"] != base_cd
                 sep = float(_sep_deg(ob["sky"], ob0["sky"][mirror_src] if flipped else ob0["sky"]).max())
                 if not sep <= TOL_DEG:
                     bad("V", op, "sky", "pixels moved on the sky by %.3g deg relative to the %s original%s" % (sep, "mirrored" if flipped else "unchanged", hist_txt))
@@ -641,9 +676,13 @@ def run(ctx):
     hshare = hh[::3] if ctx.quick else hh[::2]
     extra_runs = [(["image", "desc"], hh[::2], widths[-1:], heights[-2:], ry1, rec3, ["none"], 2),
                   (["pil"], hh[::6], widths[-1:], heights[-1:], ry1, rec3, ["none"], 3),
-                  (["image"], hshare, widths[-1:], heights[-1:], refy[:1], [(0, 0)], ["alias", "tail", "head"], 4)]
+                  (["image"], hshare, widths[-1:], heights[-1:], refy[:1], [(0, 0)], ["alias", "tail", "head"], 4),
+                  # the WCS object edited in place between calls (2 calls + 3 edits = 5 actions)
+                  (["image", "desc"], hshare, widths[-1:], heights[-1:], refy[:1], [(0, 0)], ["none"], 5),
+                  (["pil"], hh[::6], widths[-1:], heights[-1:], refy[:1], [(0, 0)], ["none"], 6)]
     for kinds, hd, ws, hs, ry, recy, peers, nact in extra_runs:
-        r = ctx.tlc("MCParity", extra={"MCParity.tla": mc_module(kinds, ws, hs, hd, refx[:1], ry, H2, recy, peers)},
+        edits = sorted(EDITS) if nact >= 5 else []
+        r = ctx.tlc("MCParity", extra={"MCParity.tla": mc_module(kinds, ws, hs, hd, refx[:1], ry, H2, recy, peers, edits)},
                     cfg_text=CFG % H2, workers=8, timeout=3000)
         got = r.json_lines("H")
         n_expected = len(kinds) * len(ws) * len(hd) * sum(len({a + b * h for a, b in ry}) for h in hs) * len(recy) * len(peers) * nact ** H2
